@@ -301,6 +301,8 @@ class Driver:
             d = self.op_undo(1)
         elif k == 'undo2':
             d = self.op_undo(2)
+        elif k == 'undo3':
+            d = self.op_undo(3)
         elif k == 'reopen':
             d = self.op_reopen(factory, drop_index=r.random() < 0.4)
         else:
